@@ -173,6 +173,8 @@ def run(cx):
         for c in ast.walk(st):
             if isinstance(c, ast.Call) and call_name(c) in PROG:
                 letters.append("P")
+            elif isinstance(c, ast.Call) and call_name(c) != "_StackElement" and any(isinstance(a_, ast.Call) and call_name(a_) == "_StackElement" for a_ in c.args):
+                letters.append("P")         # a new stack element is built and handed on (push), whatever the pushing helper is called
         return tuple(letters) if letters else None
     spec = {("s0", "P"): "s0", ("s0", "HEAD"): "h", ("h", "P"): "p", ("p", "P"): "p", ("p", "HEAD"): "h"}
     res = events.check(parse, classify, spec, "s0", {"s0", "h", "p"}, loop_letters={id(mw): "HEAD"}, known_tests=events.reference_tests(parse))
@@ -183,7 +185,7 @@ def run(cx):
     if not res.violations:
         cx.ob("R03c", mw, True, f"every iteration of the parse loop performs a progress action before the next one starts ({res.states} product states)", stmt="no stuttering")
     for msg, pth in res.violations[:3]:
-        cx.ob("R03c", mw, False, f"an iteration of the parse loop can repeat without any progress action (match, push, next alternative): path through lines {pth[-10:]}", stmt="no stuttering")
+        cx.ob("R03c", mw, False, f"an iteration of the parse loop can repeat without any progress action (match, push, next alternative): path through lines {pth[-10:]}", stmt="no stuttering", semantic=True)
     # the body cannot fall off its end silently: last statement raises
     last = mw.body[-1]
     if isinstance(last, ast.For) and last.orelse and not any(isinstance(x, ast.Return) for x in ast.walk(last)):
